@@ -618,6 +618,7 @@ def bounded_plain(ctx):
             ctx.violation(key, what, {'fn': 'checks.C16:replay_history', 'args': dict(cname=t[0], init=t[1], ops=ops)})
     # arguments that are not integers
     n = 0
+    observations = {}
     for c in CLASSES:
         init = (2, 2) if c in ('BipartiteGraph', 'CompleteBipartiteGraph') else 3
         prefixes = [[], [('add_edge', 1, 2)], [('add_edge', 1, 2), ('add_edge', 2, 1)] if c != 'Graph' else [('add_edge', 1, 2), ('add_edge', 2, 3)]]
@@ -632,9 +633,14 @@ def bounded_plain(ctx):
                         n += 1
                         ctx.case(('odd', c, tuple(map(repr, ops))), nontrivial=True)
                         bad = run_history(c, init, ops, networkx_too=False)
-                        if bad:
+                        if bad and ':nonint' in bad[0]:
+                            # vertex arguments that are not integers are OUTSIDE the quantifier of C16 ("vertices out of
+                            # range, self-loops"): recorded as observations in the evidence, never as violations
+                            observations.setdefault(bad[0], bad[1])
+                        elif bad:
                             ctx.violation(bad[0], bad[1], {'fn': 'checks.C16:replay_history', 'args': dict(cname=c, init=init, ops=_ops_json(ops))})
-    ctx.bounds['odd arguments'] = '{} histories with one argument among {} (refused calls must leave no trace; 2.0 may be taken as 2)'.format(n, list(map(repr, ODD)))
+    ctx.section('non_integer_arguments', note='outside the property quantifier; observations only', observed=observations)
+    ctx.bounds['odd arguments'] = '{} histories with one argument among {} (observations only: non-integer vertices are outside the property)'.format(n, list(map(repr, ODD)))
 
 
 def run(ctx):
